@@ -3,11 +3,18 @@
 Protocol: notes/C02-protocol.md.  One `enum` op = one generated grammar run on *all* inputs over a small
 alphabet up to a length bound (digest); `refine` turns a differing digest into the single differing input.
 """
+import os
+
 from vlib.runner import Batch
 
 ID = "C02"
 LEAN_PROPS = ["FcpptProofs.Props.C02"]
-HARNESS = {"src": "harness/c02.cpp", "repo_srcs": ["libs/core/src/insert_extract_locale.cpp", "libs/core/src/exception.cpp"]}
+# the typed family is compiled as separate translation units (in parallel); vlib joins repo_srcs onto the /repo path, an
+# absolute path passes through unchanged
+_H = os.path.normpath(os.path.join(os.path.dirname(os.path.abspath(__file__)), "..", "harness"))
+HARNESS = {"src": "harness/c02.cpp",
+           "repo_srcs": ["libs/core/src/insert_extract_locale.cpp", "libs/core/src/exception.cpp"] +
+                        [os.path.join(_H, f"c02_typed_{i}.cpp") for i in range(8)]}
 TIE = ("hand-written position-threading model (FcpptModel/Model/C02.lean) proved equal to the position-free PEG semantics; "
        "differential correspondence against grammars built at run time from the real fcppt::parse templates")
 RULE = ("enum: one generated well-formed grammar (<= 3 rules, depth <= 5, every combinator and skipper kind) x ALL inputs over a "
@@ -28,7 +35,8 @@ TRUSTED = ["harness/c02.cpp, the op-line grammar decoder on both sides and the d
 
 LEAF_W = [("lit", 10), ("cset", 8), ("compl", 3), ("any", 3), ("str", 4), ("eps", 2), ("fail", 1)]
 NODE_W = [("seq", 16), ("alt", 14), ("rep", 8), ("plus", 5), ("opt", 8), ("not", 5), ("fatal", 6), ("lex", 4),
-          ("ign", 2), ("named", 3), ("rec", 2), ("conv", 4), ("cif", 5), ("sep", 5), ("list", 4), ("ref", 7), ("leaf", 14)]
+          ("ign", 2), ("named", 3), ("rec", 2), ("conv", 4), ("cif", 5), ("sep", 5), ("list", 4), ("ref", 7), ("leaf", 14),
+          ("con", 2), ("ast", 2), ("cst", 2)]
 
 
 def pick(rng, table):
@@ -67,7 +75,7 @@ class Gen:
 
     def leaf(self, want_nonnull=False):
         r = self.rng
-        table = LEAF_W + ([("uint", 6), ("int", 6)] if self.numeric else [])
+        table = LEAF_W + ([("uint", 6), ("int", 6), ("float", 6)] if self.numeric else [])
         while True:
             k = pick(r, table)
             if want_nonnull and k == "eps":
@@ -84,7 +92,7 @@ class Gen:
             n = r.range(1 if want_nonnull else 0, 3)
             s = "".join(r.choice(self.alpha) for _ in range(n))
             return "str:" + s, n == 0
-        if k in ("any", "fail", "uint", "int"):
+        if k in ("any", "fail", "uint", "int", "float"):
             return k, False
         return "eps", True
 
@@ -140,6 +148,17 @@ class Gen:
         if k == "conv":
             a, na = self.gen(d, guarded)
             return f"conv:{r.below(3)}.{a}", na
+        if k == "con":
+            a, na = self.gen(d, guarded)
+            return f"con:{20 + r.below(10)}.{a}", na
+        if k == "ast":
+            a, na = self.gen(d, guarded)
+            b, nb = self.gen(d, guarded or not na)
+            return f"ast:{30 + r.below(10)}.seq.{a}.{b}", na and nb
+        if k == "cst":
+            a, na = self.gen(d, guarded)
+            c = f"i{r.below(100)}" if r.chance(1, 2) else "c" + r.choice(self.alpha)
+            return f"cst:{c}.{a}", na
         if k == "cif":
             j = r.below(3)
             if j == 1:
@@ -183,6 +202,244 @@ class Gen:
         return ";".join(rules)
 
 
+# ---------------------------------------------------------------------------------------------- typed family
+
+ARITY = {"eps": 0, "fail": 0, "any": 0, "lit": 0, "cset": 0, "compl": 0, "str": 0, "uint": 0, "int": 0, "float": 0,
+         "seq": 2, "alt": 2, "rep": 1, "plus": 1, "opt": 1, "not": 1, "fatal": 1, "lex": 1, "ign": 1, "named": 1,
+         "sep": 2, "list": 4, "con": 1, "ast": 1, "cst": 1}
+
+
+def parse_prefix(text):
+    """grammar text (one rule, prefix notation) -> nested tuple (name, param, kids)"""
+    toks = text.split(".")
+    pos = [0]
+
+    def go():
+        t = toks[pos[0]]
+        pos[0] += 1
+        name, _, param = t.partition(":")
+        kids = [go() for _ in range(ARITY[name])]
+        return (name, param, kids)
+
+    r = go()
+    assert pos[0] == len(toks), text
+    return r
+
+
+def shape_cpp(node):
+    """the C++ expression of a shape: the real combinators with their natural result types"""
+    name, param, kids = node
+    k = [shape_cpp(x) for x in kids]
+    if name == "eps":
+        return "fp::epsilon{}"
+    if name == "fail":
+        return "fp::fail<fcppt::unit>{}"
+    if name == "any":
+        return "any<Ch>()"
+    if name == "lit":
+        return f"lit<Ch>('{param}')"
+    if name == "cset":
+        return f'cs<Ch>("{param}")'
+    if name == "compl":
+        return f'(~cs<Ch>("{param}"))'
+    if name == "str":
+        return f'str<Ch>("{param}")'
+    if name == "uint":
+        return "fp::uint<unsigned short>{}"
+    if name == "int":
+        return "fp::int_<short>{}"
+    if name == "float":
+        return "fp::float_<double>{}"
+    if name == "seq":
+        return f"({k[0]} >> {k[1]})"
+    if name == "alt":
+        return f"({k[0]} | {k[1]})"
+    if name == "rep":
+        return f"(*{k[0]})"
+    if name == "plus":
+        return f"(+{k[0]})"
+    if name == "opt":
+        return f"(-{k[0]})"
+    if name == "not":
+        return f"(!{k[0]})"
+    if name == "fatal":
+        return f"fp::make_fatal({k[0]})"
+    if name == "lex":
+        return f"fp::make_lexeme({k[0]})"
+    if name == "ign":
+        return f"fp::make_ignore({k[0]})"
+    if name == "named":
+        return f"nm<Ch>({k[0]})"
+    if name == "sep":
+        return f"fp::separator{{{k[0]}, {k[1]}}}"
+    if name == "list":
+        return f"fp::list{{{k[0]}, {k[1]}, {k[2]}, {k[3]}}}"
+    if name == "con":
+        return f"con<{int(param)}>({k[0]})"
+    if name == "ast":
+        return f"ast<{int(param)}>({k[0]})"
+    if name == "cst":
+        if param[0] == "i":
+            return f"fp::convert_const{{{k[0]}, short{{{int(param[1:])}}}}}"
+        return f"fp::convert_const{{{k[0]}, chr<Ch>('{param[1]}')}}"
+    raise AssertionError(name)
+
+
+def typed_shapes():
+    """[(grammar text, alphabet, also_wide)] — systematic over the cases of sequence_result / alternative_result /
+    repetition_result; every operand is selectable by its own character so that all branches are reached.
+    also_wide: the shape is instantiated for wchar_t (under a literal skipper) as well as for char."""
+    out = []
+    seen = set()
+
+    def add(g, alpha="abc", wide=None):
+        if g in seen:
+            return
+        seen.add(g)
+        if wide is None:      # everything with a string / number in it, and every third of the rest
+            wide = any(t in g for t in ("plus.cset", "rep.cset", "str", "uint", "int", "float")) or len(out) % 3 == 0
+        out.append((g, alpha, wide))
+
+    U, C, S, OU, T2, VU = "lit:a", "cset:bc", "plus.cset:c", "opt.lit:b", "seq.cset:a.cset:b", "plus.lit:a"
+    # 1. sequence of two parts: every pair of operand classes (unit / char / string / optional / tuple / vector)
+    parts2 = [U, C, S, OU, T2, VU]
+    for x in parts2:
+        for y in parts2:
+            add(f"seq.{x}.{y}")
+    # 2./3. three and four parts over {unit, char}: both groupings; plus a tuple / string / optional in every position
+    uc = ["lit:a", "cset:bc"]
+    for x in uc:
+        for y in uc:
+            for z in uc:
+                add(f"seq.seq.{x}.{y}.{z}")
+                add(f"seq.{x}.seq.{y}.{z}")
+                for w in uc:
+                    add(f"seq.seq.seq.{x}.{y}.{z}.{w}")
+                    add(f"seq.seq.{x}.{y}.seq.{z}.{w}")
+    for i in range(3):
+        for special in (T2, S, OU):
+            ps = ["cset:bc", "lit:a", "cset:ab"]
+            ps[i] = special
+            add(f"seq.seq.{ps[0]}.{ps[1]}.{ps[2]}")
+            add(f"seq.{ps[0]}.seq.{ps[1]}.{ps[2]}")
+    add("seq.seq.cset:a.cset:b.seq.cset:b.cset:c")        # tuple >> tuple
+    add("seq.lit:a.seq.lit:b.lit:c")                      # all units
+    add("seq.eps.cset:a"), add("seq.cset:a.eps"), add("seq.eps.eps"), add("seq.str:ab.cset:c"), add("seq.opt.cset:b.str:ab")
+    # 4. alternatives: pairs, nested triples (both groupings), merges of two variants
+    alts = ["lit:a", "cset:b", "plus.cset:c", "lit:c", "seq.cset:a.cset:b"]
+    for x in alts:
+        for y in alts:
+            add(f"alt.{x}.{y}")
+    tri = ["lit:a", "cset:b", "plus.cset:c"]
+    for x in tri:
+        for y in tri:
+            for z in tri:
+                add(f"alt.alt.{x}.{y}.{z}")
+                add(f"alt.{x}.alt.{y}.{z}")
+    for g in ("alt.alt.lit:a.cset:b.lit:c", "alt.lit:a.alt.cset:b.lit:c", "alt.alt.lit:a.lit:c.cset:b", "alt.lit:a.alt.lit:c.cset:b",
+              "alt.alt.cset:b.lit:a.cset:c", "alt.cset:b.alt.lit:a.cset:c"):
+        add(g)
+    for l in ("alt.cset:a.lit:b", "alt.lit:b.cset:a"):
+        for r in ("alt.lit:c.cset:b", "alt.cset:c.lit:a", "alt.plus.cset:c.cset:b", "alt.lit:c.lit:a"):
+            add(f"alt.{l}.{r}")
+    add("alt.seq.cset:a.cset:b.seq.cset:b.cset:a")        # the same tuple type twice: stays a tuple
+    add("alt.opt.cset:a.cset:b")                          # optional | char (left nullable)
+    add("alt.fail.cset:a"), add("alt.cset:a.fail")
+    # 5. repetition / repetition_plus / optional over every element class
+    elems = ["lit:a", "cset:ab", "seq.lit:a.cset:b", "seq.cset:a.cset:b", "seq.plus.cset:a.lit:b",
+             "seq.opt.cset:a.lit:b", "alt.cset:a.lit:b", "seq.lit:a.lit:b", "plus.cset:c"]
+    for e in elems:
+        add(f"rep.{e}")
+        add(f"opt.{e}")
+        if e != "seq.cset:a.cset:b":               # +p of a tuple-typed p does not instantiate (notes/C02.md)
+            add(f"plus.{e}")
+    add("opt.opt.cset:a"), add("opt.rep.cset:a"), add("rep.seq.cset:a.opt.cset:b"), add("plus.seq.lit:a.opt.lit:b")
+    add("seq.rep.cset:a.rep.cset:b"), add("seq.plus.lit:a.plus.cset:b")
+    # 6. wrappers keep / drop the type
+    for w in ("fatal", "lex", "named", "ign"):
+        for e in ("cset:ab", "seq.cset:a.cset:b", "lit:a"):
+            add(f"{w}.{e}")
+    add("not.lit:a"), add("not.ign.cset:ab"), add("not.str:ab")       # not_ static_asserts a unit-typed operand
+    add("seq.not.lit:a.cset:ab"), add("seq.cset:ab.not.lit:a"), add("alt.fatal.seq.cset:a.cset:b.cset:a")
+    add("compl:a"), add("any"), add("str:ab"), add("eps"), add("fail")
+    # 7. separator / list: always a vector of the inner type (never a string)
+    for e in ("cset:ab", "lit:a", "seq.cset:a.cset:b", "plus.cset:a", "seq.lit:a.cset:b", "opt.cset:a"):
+        add(f"sep.{e}.lit:c")
+        add(f"list.lit:c.{e}.lit:b.lit:c")
+    add("sep.cset:ab.str:cc"), add("seq.sep.cset:a.lit:b.cset:c"), add("list.str:ab.cset:c.lit:b.str:ba")
+    # 8. construct / as_struct / convert_const
+    for e in ("cset:ab", "plus.cset:a", "seq.cset:a.cset:b", "lit:a", "opt.cset:a", "alt.cset:a.lit:b"):
+        add(f"con:21.{e}")
+    for e in ("seq.cset:a.cset:b", "seq.cset:a.seq.rep.cset:b.opt.cset:c", "seq.seq.cset:a.lit:b.cset:c",
+              "seq.cset:a.seq.lit:b.seq.cset:b.cset:c"):
+        add(f"ast:31.{e}")
+    add("cst:i7.lit:a"), add("cst:cx.lit:a"), add("cst:i7.str:ab"), add("cst:i7.not.lit:a")
+    add("alt.cst:i1.lit:a.cst:i2.lit:b"), add("alt.cst:i1.lit:a.cset:b"), add("seq.cst:i1.lit:a.cst:cx.lit:b")
+    add("rep.cst:i3.lit:a"), add("opt.cst:cx.lit:a")
+    add("seq.con:21.cset:a.ast:31.seq.cset:b.cset:c"), add("ast:32.seq.con:21.cset:a.cset:b")
+    add("alt.con:21.cset:a.con:22.cset:b"), add("alt.con:21.cset:a.con:21.cset:a"), add("rep.ast:31.seq.cset:a.cset:b")
+    add("seq.con:21.cset:a.con:21.cset:a")
+    # 9. numbers
+    for g in ("uint", "int", "seq.uint.lit:a", "seq.opt.lit:a.int", "alt.uint.int", "alt.int.uint", "rep.seq.uint.lit:a",
+              "sep.int.lit:a", "seq.uint.uint"):
+        add(g, "1-a9")
+    for g in ("float", "seq.float.lit:a", "alt.float.uint", "opt.float"):
+        add(g, "1!-a")
+    return out
+
+
+TYPED_CHUNKS = 8
+HDIR = os.path.normpath(os.path.join(os.path.dirname(os.path.abspath(__file__)), "..", "harness"))
+
+
+def gen_typed_files():
+    """{file name under harness/: content}: the table and the TYPED_CHUNKS translation units of the typed family"""
+    shapes = typed_shapes()
+    files = {"c02_typed_table.inc": "// GENERATED by props/c02.py gen_typed_files()\n" +
+             "".join(f"C02_TYPED_CHUNK({i})\n" for i in range(TYPED_CHUNKS))}
+    for i in range(TYPED_CHUNKS):
+        lines = ["// GENERATED by props/c02.py gen_typed_files() — do not edit; regenerate with",
+                 "//   python3 -c 'import props.c02 as c; c.write_typed_files()'",
+                 '#include "c02_typed.hpp"', "", "namespace c02typed", "{",
+                 f"bool chunk_{i}(unsigned const _world, wchar_t const _skip, std::string const &_grammar, top const &_op, std::string &_result)",
+                 "{"]
+        for g, _, wide in shapes[i::TYPED_CHUNKS]:
+            node = parse_prefix(g)
+            lines.append(f'  if (_grammar == "{g}")')
+            lines.append("  {")
+            lines.append("    if (_world == 0)")
+            lines.append("    {")
+            lines.append("      using Ch = char;")
+            lines.append(f"      run_shape<Ch>(_world, _skip, {shape_cpp(node)}, _op, _result);")
+            lines.append("    }")
+            if wide:
+                lines.append("    else")
+                lines.append("    {")
+                lines.append("      using Ch = wchar_t;")
+                lines.append(f"      run_shape<Ch>(_world, _skip, {shape_cpp(node)}, _op, _result);")
+                lines.append("    }")
+            lines.append("    return true;")
+            lines.append("  }")
+        lines += ["  return false;", "}", "}", ""]
+        files[f"c02_typed_{i}.cpp"] = "\n".join(lines)
+    return files
+
+
+def write_typed_files():
+    for name, content in gen_typed_files().items():
+        open(os.path.join(HDIR, name), "w").write(content)
+
+
+def typed_files_current():
+    for name, content in gen_typed_files().items():
+        try:
+            if open(os.path.join(HDIR, name)).read() != content:
+                return False
+        except OSError:
+            return False
+    return True
+
+
 SKIPS = {
     # skipper token -> extra alphabet characters it needs
     "E": "", "S": "_", "Rx": "x", "Lx": "x", "Qxy": "xy", "Qx": "x", "Cxy": "xy", "R_/": "_/", "Rab": "",
@@ -195,14 +452,14 @@ def n_inputs(k, maxlen):
 
 def weight(op):
     t = op.split()
-    if t[0] == "enum":
+    if t[0] in ("enum", "tenum"):
         return n_inputs(len(t[4]) - 1, int(t[5]))
     return 1
 
 
 def nontrivial(op, result):
     t = op.split()
-    if t[0] != "enum":
+    if t[0] not in ("enum", "tenum"):
         return True
     f = dict(x.split("=") for x in result.split()[2:] if "=" in x)
     return int(f.get("ok", 0)) > 0 and int(f.get("fail", 0)) + int(f.get("fatal", 0)) > 0
@@ -224,10 +481,11 @@ def all_strings(alpha, maxlen):
 
 def refine(op):
     t = op.split()
-    if t[0] != "enum":
+    if t[0] not in ("enum", "tenum"):
         return None
     alpha, maxlen = t[4][1:], int(t[5])
-    return [f"run {t[1]} {t[2]} {t[3]} ={s}" for s in all_strings(alpha, maxlen)]
+    one = "run" if t[0] == "enum" else "typed"
+    return [f"{one} {t[1]} {t[2]} {t[3]} ={s}" for s in all_strings(alpha, maxlen)]
 
 
 def make_ops(rng, count, maxlen_small, maxlen_big, stats, sk_choices, numeric=False, wide_share=3):
@@ -235,7 +493,7 @@ def make_ops(rng, count, maxlen_small, maxlen_big, stats, sk_choices, numeric=Fa
     for _ in range(count):
         sk = rng.choice(sk_choices)
         if numeric:
-            base = rng.choice(["19-", "356", "07a", "-12", "32768"])
+            base = rng.choice(["19-", "356", "07a", "-12", "32768", "1!-", "05!", "!27"])
         else:
             base = rng.choice(["abc", "abc", "ab", "abcd", "ab@"])
         extra = "".join(c for c in SKIPS[sk] if c not in base)
@@ -247,7 +505,9 @@ def make_ops(rng, count, maxlen_small, maxlen_big, stats, sk_choices, numeric=Fa
         nrules = rng.choice([1, 1, 2, 3])
         g = Gen(rng, gen_alpha, numeric=numeric, nrules=nrules, maxdepth=rng.choice([3, 4, 4, 5]), stats=stats)
         gr = g.grammar()
-        entry = rng.choice(["p", "h", "g"]) if sk == "E" else rng.choice(["h", "g"])
+        # p/h/g: the string entry points (consume_remaining); s/r: the stream entry points (the offset the stream is left
+        # at, after success and after failure, is part of the answer)
+        entry = rng.choice(["p", "h", "g", "s", "r"]) if sk == "E" else rng.choice(["h", "g", "s", "r"])
         maxlen = maxlen_big if len(alpha) <= 3 else maxlen_small
         while n_inputs(len(alpha), maxlen) > 12000 and maxlen > 3:
             maxlen -= 1
@@ -262,8 +522,139 @@ def fmt_stats(stats):
     return " ".join(f"{k}={v}" for k, v in sorted(stats.items()))
 
 
+# ---------------------------------------------------------------------------------------------- systematic families
+
+def sys_nullable(node):
+    n, _, k = node
+    if n in ("eps", "rep", "opt", "not"):
+        return True
+    if n == "str":
+        return node[1] == ""
+    if n == "seq":
+        return sys_nullable(k[0]) and sys_nullable(k[1])
+    if n == "alt":
+        return sys_nullable(k[0]) or sys_nullable(k[1])
+    if n in ("fatal", "plus"):
+        return sys_nullable(k[0])
+    return False
+
+
+def sys_wf(node):
+    n, _, k = node
+    if n in ("rep", "plus") and sys_nullable(k[0]):
+        return False
+    return all(sys_wf(x) for x in k)
+
+
+def small_terms():
+    """ALL parser terms of depth <= 2 over {seq, alt, rep, opt, not} and the leaves 'a', "ab", any that are well-formed:
+    every way two save/restore sites (alternative, optional, not_, repetition) can be nested or be siblings"""
+    leaves = ["lit:a", "str:ab", "any"]
+    d1 = list(leaves)
+    for u in ("rep", "opt", "not"):
+        d1 += [f"{u}.{x}" for x in leaves]
+    for b in ("seq", "alt"):
+        d1 += [f"{b}.{x}.{y}" for x in leaves for y in leaves]
+    d2 = list(d1)
+    for u in ("rep", "opt", "not"):
+        d2 += [f"{u}.{x}" for x in d1 if x not in leaves]
+    for b in ("seq", "alt"):
+        d2 += [f"{b}.{x}.{y}" for x in d1 for y in d1 if not (x in leaves and y in leaves)]
+    return [g for g in d2 if sys_wf(parse_prefix(g))]
+
+
+def interplay_terms():
+    """two-step save/restore interplay, depth 3-5: an alternative inside a repetition inside an optional followed by a sibling
+    that must start where the nest stopped; not_ around consuming parsers (single characters, strings, sequences, loops)
+    followed by a sibling that must see the original position; partial consumption + fatal at every such site"""
+    cons = ["lit:a", "str:ab", "any", "seq.lit:a.lit:b", "seq.any.lit:b"]          # consuming, non-nullable
+    out = []
+    for x in cons:
+        for y in cons:
+            for z in ("lit:a", "str:ab", "any"):
+                out.append(f"seq.opt.rep.alt.{x}.{y}.{z}")
+    for x in cons[:4]:
+        for y in cons[:4]:
+            out.append(f"opt.rep.alt.{x}.{y}")
+            out.append(f"rep.alt.seq.{x}.{y}.lit:b")
+            out.append(f"seq.rep.alt.seq.{x}.{y}.any.lit:a")
+            out.append(f"opt.seq.{x}.rep.alt.{y}.lit:b")
+    looks = cons + ["rep.lit:a", "plus.lit:a", "opt.str:ab", "alt.str:ab.lit:a", "not.lit:a"]
+    for w in ("eps", "lit:a", "opt.lit:a", "rep.lit:b"):
+        for x in looks:
+            for y in ("lit:a", "str:ab", "any", "seq.lit:a.lit:b"):
+                out.append(f"seq.seq.{w}.not.{x}.{y}")
+    for x in looks:
+        for y in ("lit:a", "str:ab", "any"):
+            out.append(f"rep.seq.not.{x}.{y}")
+            out.append(f"alt.seq.not.{x}.{y}.any")
+            out.append(f"opt.seq.not.not.{x}.{y}")
+    lv = ["lit:a", "str:ab", "any"]
+    for x in lv:
+        for y in lv:
+            out.append(f"opt.seq.{x}.fatal.{y}")
+            out.append(f"rep.seq.{x}.fatal.{y}")
+            out.append(f"seq.not.seq.{x}.fatal.{y}.any")
+            out.append(f"seq.not.fatal.{x}.{y}")
+            for z in lv:
+                out.append(f"alt.seq.{x}.fatal.{y}.{z}")
+                out.append(f"alt.{x}.seq.{y}.fatal.{z}")
+                out.append(f"alt.opt.seq.{x}.fatal.{y}.{z}")
+                out.append(f"rep.alt.seq.{x}.fatal.{y}.{z}")
+    seen, res = set(), []
+    for g in out:
+        if g not in seen and sys_wf(parse_prefix(g)):
+            seen.add(g)
+            res.append(g)
+    return res
+
+
+# non-idempotent skippers: every call of `Lx` / `Cx` consumes exactly one 'x' (and fails without one), `Qx` one 'x' and then
+# nothing more; `Rx` is the idempotent reference; `E` none
+SYS_SKIPS = ["E", "Lx", "Cx", "Qx", "Rx"]
+
+
+def sys_ops(terms, maxlen, skips, stride=1, offset=0):
+    ops = []
+    i = 0
+    for g in terms:
+        for sk in skips:
+            i += 1
+            if (i + offset) % stride:
+                continue
+            # the stream entry points show the position after success AND after failure; the string ones consume_remaining
+            e = ("s", "h", "r", "g")[i % 4]
+            alpha = "ab" if sk == "E" else "abx"
+            ml = maxlen + 1 if sk == "E" else maxlen
+            ops.append(f"enum c{e} {sk} {g} ={alpha} {ml}")
+    return ops
+
+
+def typed_ops(maxlen):
+    ops = []
+    for i, (g, alpha, wide) in enumerate(typed_shapes()):
+        ops.append(f"tenum c{'ph'[i % 2]} E {g} ={alpha} {maxlen}")
+        if wide:
+            ops.append(f"tenum wh Lx {g} ={alpha}x {maxlen - 1}")
+    return ops
+
+
 def batches(rng, tier):
     thorough = tier == "thorough"
+    if not typed_files_current():
+        raise RuntimeError("harness/c02_typed_*.cpp are stale: python3 -c 'import props.c02 as c; c.write_typed_files()'")
+    yield Batch("typed-shapes", typed_ops(6 if thorough else 5), exhaustive=True,
+                note=f"{len(typed_shapes())} statically typed grammars (natural result types of the real templates): static type + "
+                     "flattened value of every input over the alphabet; char/epsilon and wchar_t/literal-skipper worlds")
+    st_terms = small_terms()
+    yield Batch("save-restore-depth2", sys_ops(st_terms, 6 if thorough else 5, SYS_SKIPS, stride=1 if thorough else 2,
+                                               offset=rng.below(2)), exhaustive=thorough,
+                note=f"ALL {len(st_terms)} well-formed terms of depth <= 2 over seq/alt/rep/opt/not and 3 leaves x 5 skippers "
+                     "(3 of them non-idempotent) x all inputs; quick: every second (term, skipper) pair, alternating with the seed")
+    it = interplay_terms()
+    yield Batch("save-restore-interplay", sys_ops(it, 6 if thorough else 5, SYS_SKIPS), exhaustive=True,
+                note=f"{len(it)} nests (alt in rep in opt + sibling, not_ around consuming parsers + sibling, fatal at every "
+                     "partial-consumption site) x 5 skippers x all inputs, stream and string entry points alternating")
     small, big = (6, 8) if thorough else (5, 6)
     mult = 16 if thorough else 4
     st = {}
